@@ -14,9 +14,10 @@ impl InstructionGenerator {
         self.generate_eval_select_case_expr(expr, pos);
         self.generate_case_blocks(case_blocks, else_block.is_some(), pos);
         self.generate_else_block(else_block, pos);
+        // every path ends here: a matched CASE block jumps here, so does a selector that matches nothing
+        self.label(labels::end_select(), pos);
         // need to pop value from stack because it was pushed by `generate_eval_select_case_expr`
         self.push(Instruction::PopValueStackIntoA, pos);
-        self.label(labels::end_select(), pos);
     }
 
     /// Evaluate SELECT CASE x into A
